@@ -654,6 +654,11 @@ func (f *MemFile) Write(b []byte) (n int, err error) {
 
 	nd.mu.Lock()
 
+	if gap := f.at - int64(len(nd.data)); gap > 0 {
+		// The offset is beyond the end of the file : the gap is filled with zeros.
+		nd.data = append(nd.data, make([]byte, gap)...)
+	}
+
 	n = copy(nd.data[f.at:], b)
 	if n < len(b) {
 		nd.data = append(nd.data, b[n:]...)
